@@ -352,7 +352,7 @@ theorem core_write_file_ok {w : World} {fd : Handle} {fid off : Nat} {wr : Bool}
 
 theorem core_mkostemp_ok (w : World) (t : Bytes) (v : Nat) :
     core w (.mkostemp t) (.ok v) =
-      ((({ w with nextFid := w.nextFid + 1 } : World).setFile w.nextFid ⟨[], [], 0⟩).newHandle (.file w.nextFid 0 true)).1 := by
+      ((({ w with nextFid := w.nextFid + 1 } : World).setFile w.nextFid ⟨[], []⟩).newHandle (.file w.nextFid 0 true)).1 := by
   simp [core, applyOk]
 
 end Mdsort.Proofs.World
